@@ -23,7 +23,10 @@ def tweak(world, rng):
         if o.get("flags"):
             o["flags"] = rng.choice([[b"-f", b"-i"], [b"-fi"], [b"-f", b"--interactive"], [b"-i"], [b"-i", b"-f", b"-i"]])
         world["stdin"] = None if rng.random() < 0.15 else rng.choice(
-            [b"n", b"N", b"", b"no", b" y", b"x", b"0", b"\ty", b"ny", b"y", b"Y", b"yes", b"Yn"]) + b"\n"
+            [b"n", b"N", b"", b"no", b" y", b"x", b"0", b"\ty", b"ny", b"y", b"Y", b"yes", b"Yn",
+             # characters that only LOOK like a y (full-width, modifier, circled, accented), and a byte that is no UTF-8
+             "\uff59".encode(), "\uff39es".encode(), "\u02b8".encode(), "\u24e8".encode(), "\u24ce".encode(), "\u00fd".encode(),
+             "\U0001d432".encode(), b"\xff"]) + b"\n"
     world["argv"] = cmd_argv(world)
     return world
 
@@ -32,7 +35,7 @@ CFG = {"cmds": ["empty"], "oracles": ("effects",), "violations": ("effects",), "
 LEVEL_NOTE = ("theorems: with --dry-run, and in interactive mode with a reply not beginning with y/Y (or end of input), "
               "trash-empty issues no file-system call, for every world, DAYS and oracle; the reply test is 'first character "
               "y or Y'. 'dry-run prints exactly what the real run removes' is checked differentially on copies of each world")
-RULE = ("seeded trash worlds (a quarter with a stale directorysizes cache in the trash directories) x {--dry-run, -i with 13 replies incl. EOF} x DAYS x --trash-dir x -v; oracle: every slot kept "
+RULE = ("seeded trash worlds (a quarter with a stale directorysizes cache in the trash directories) x {--dry-run, -i with 21 replies incl. EOF and look-alikes of y} x DAYS x --trash-dir x -v; oracle: every slot kept "
         "and everything outside unchanged; exhaustive function-level check of parse_reply over all strings of length <= 2 "
         "of printable ASCII; differential: printed paths of a dry run vs paths removed by the real run on a copy")
 
